@@ -158,7 +158,8 @@ def _inflation_guards(f, colliders):
             if isinstance(st, ast.If):
                 walk(st.body, conds + [st.test])
                 walk(st.orelse, conds + [ast.UnaryOp(op=ast.Not(), operand=st.test)])
-            elif isinstance(st, ast.AugAssign) and u(st.target) == "inflation" and isinstance(st.op, ast.Add):
+            elif isinstance(st, ast.AugAssign) and isinstance(st.target, ast.Name) and isinstance(st.op, ast.Add):
+                # the inflation accumulator is whatever `+= <collider>.radius` is applied to
                 for k, c in enumerate(colliders):
                     if u(st.value) == "%s.radius" % c:
                         out[k].append(conds)
@@ -262,14 +263,16 @@ def r_dispatch(idx, rep, rule="R-DISPATCH"):
         cloc = {s.targets[0].id: s.value for s in iter_stmts(callee.node.body) if isinstance(s, ast.Assign) and isinstance(s.targets[0], ast.Name)}
         # where does each data slot flow: axial (support[2]) or radial (support[:2] / [0],[1])
         flows = {}
+        rets_ = [x for x in iter_stmts(callee.node.body) if isinstance(x, ast.Return) and isinstance(x.value, ast.Name)]
+        supname = rets_[-1].value.id if rets_ else "support"
         for s in iter_stmts(callee.node.body):
-            if isinstance(s, ast.Assign) and isinstance(s.targets[0], ast.Subscript) and u(s.targets[0].value) == "support":
+            if isinstance(s, ast.Assign) and isinstance(s.targets[0], ast.Subscript) and u(s.targets[0].value) == supname:
                 tgt = u(s.targets[0].slice)
-                role = "axial" if tgt == "2" else ("radial" if tgt in (":2", "0", "1") else ("per-axis" if tgt == "i" else tgt))
+                role = "axial" if tgt == "2" else ("radial" if tgt in (":2", "0", "1") else ("per-axis" if isinstance(s.targets[0].slice, ast.Name) else tgt))
                 for n in ast.walk(s.value):
                     src = None
                     if isinstance(n, ast.Subscript) and u(n.value) == dpar:
-                        src = const(n.slice) if const(n.slice) is not None else u(n.slice)
+                        src = const(n.slice) if const(n.slice) is not None else ("i" if isinstance(n.slice, ast.Name) else u(n.slice))
                     elif isinstance(n, ast.Name) and n.id in cloc and isinstance(cloc[n.id], ast.Subscript) and u(cloc[n.id].value) == dpar:
                         src = const(cloc[n.id].slice)
                     if src is not None:
@@ -365,6 +368,28 @@ def _first_diff(ta, tb, path="root"):
     return None
 
 
+def _ret_kinds(f):
+    """kind of every element of f's returned tuple: 'counter' (incremented by 1 in a loop), 'bool' (assigned True/False or a
+    comparison), 'array' (np.empty/zeros/array buffer or attribute .points), 'float' (everything else that is assigned arithmetic)"""
+    rets = [s for s in iter_stmts(f.node.body) if isinstance(s, ast.Return) and isinstance(s.value, ast.Tuple)]
+    if not rets:
+        return None
+    names = [u(e) for e in rets[-1].value.elts]
+    kinds = []
+    for n in names:
+        k = "float"
+        assigns = [st for st in iter_stmts(f.node.body) if isinstance(st, ast.Assign) and any(u(t) == n for t in st.targets)]
+        augs = [st for st in iter_stmts(f.node.body) if isinstance(st, ast.AugAssign) and u(st.target) == n and isinstance(st.op, ast.Add) and const(st.value) == 1]
+        if augs:
+            k = "counter"
+        elif assigns and all(isinstance(st.value, ast.Constant) and isinstance(st.value.value, bool) or isinstance(st.value, (ast.Compare, ast.BoolOp)) for st in assigns):
+            k = "bool"
+        elif any(isinstance(st.value, ast.Call) and (call_name(st.value) or "") in ("np.empty", "np.zeros", "np.array") for st in assigns) or "." in n:
+            k = "array"
+        kinds.append(k)
+    return kinds
+
+
 def r_tuplerole(idx, rep, rule="R-TUPLEROLE"):
     rep.rule(rule, "result-tuple wrappers index the element that holds the quantity they are named after; the iteration-count "
                    "helpers drive the same loop with the same arguments as the distance function", floor=8)
@@ -386,11 +411,15 @@ def r_tuplerole(idx, rep, rule="R-TUPLEROLE"):
         sub = [n for n in ast.walk(w.node) if isinstance(n, ast.Subscript) and isinstance(n.value, ast.Call)]
         ok = False
         why = "wrapper does not index a result tuple"
-        if sub:
+        want_kind = {"inside": "bool", "distance": "float", "i": "counter", "iteration": "counter"}[names[0]]
+        kinds = _ret_kinds(c)
+        if sub and kinds:
             k = const(sub[0].slice)
-            elems = {u(r.value.elts[k]) for r in rets if isinstance(k, int) and k < len(r.value.elts)}
-            ok = bool(elems) and all(e in names for e in elems)
-            why = "%s takes element %s of %s's result, which holds %s (expected one of %s)" % (w.name, k, c.name, sorted(elems), names)
+            got = kinds[k] if isinstance(k, int) and -len(kinds) <= k < len(kinds) else None
+            # exactly one element of that kind must exist, otherwise the kind does not identify the role
+            ok = got == want_kind and kinds.count(want_kind) == 1
+            why = "%s takes element %s of %s's result tuple, which is a %s (kinds %s); the %s is expected there" % (
+                w.name, k, c.name, got, kinds, {"bool": "boolean intersection flag", "float": "distance", "counter": "iteration counter"}[want_kind])
         rep.check(ok, rule, wk + "|element role", w.where, why)
         if "distance" in names:
             ok2 = any(isinstance(n, ast.Call) and call_name(n) == "max" and any(const(a) in (0, 0.0) for a in n.args) for n in ast.walk(w.node))
